@@ -7,7 +7,7 @@ def run(ck):
     if not ck.load(('bin_off',)):
         return
     import contracts_async  # noqa
-    ck.assumptions += ['the wall clock is a symbolic non-decreasing millisecond value', 'every await completes',
+    ck.assumptions += ['the wall clock is a symbolic millisecond value (it may be set back between two readings)', 'every await completes',
                        'Arc::get_mut succeeds during single-threaded start-up']
     ck.out_of_scope += ['tokio timer accuracy; which select! arm fires is a symbolic choice (no scheduling model)', 'tproxy/reverse listeners beyond their set_idle_timeout call']
     timeouts.spec_is_timeout(ck)
